@@ -284,7 +284,7 @@ func c16Case(c *core.Ctx, r *core.Rand, idx int, lines *[]string, impls *[]strin
 				terr = fmt.Errorf("panic: %v", rr)
 			}
 		}()
-		res, terr = traversal.Progress{Cfg: cfg}.FocusedTransform(root, mkPath(path), fn, cp)
+		res, terr = traversal.Progress{Cfg: cfg}.FocusedTransform(root, mkPathMixed(path, r), fn, cp)
 	}()
 	line := fmt.Sprintf("xform.focus %s %s %s %s ROOT %s VAL %s", tfs(cp), core.PathArg(path), kind, g.StoreTokens(), g.Root.Term(), val.Term())
 	caseOK := true
@@ -452,6 +452,73 @@ func c16Walking(c *core.Ctx, r *core.Rand) error {
 	}
 	c.Count(caseID, v.Size() >= 3)
 	c.Dist("walk-transform")
+	// any selector (all clause kinds, depth limits, stop conditions): the identity transform returns an equal tree, and
+	// replacing the matched ints — the positions WalkMatching reports for the same selector (C07) — changes exactly those
+	g := &core.Graph{Blocks: map[string][]byte{}, Vals: map[string]core.Val{}, Root: v}
+	spec := core.GenSelector(r, g, 0, false, false)
+	if specHasSubset(spec) {
+		return nil
+	}
+	U := core.RunWalk(g, spec, core.WalkCfg{}, true)
+	if U.Compile != "" || U.Outcome != "ok" {
+		return nil
+	}
+	s2, st2 := core.CompileSel(spec)
+	if st2 != "" {
+		return nil
+	}
+	caseSel := "xform.walk-sel " + v.Term() + " SEL " + spec.Term()
+	res, err = func() (res datamodel.Node, err error) {
+		defer func() {
+			if x := recover(); x != nil {
+				err = fmt.Errorf("panic: %v", x)
+			}
+		}()
+		return traversal.WalkTransforming(n, s2, func(p traversal.Progress, m datamodel.Node) (datamodel.Node, error) { return m, nil })
+	}()
+	if err != nil || termOf(res) != v.Term() {
+		c.Fail("C16/walk-identity-changes-tree", core.Replay{Kind: "oracle", Case: caseSel, Impl: termOfOrErr(res, err), Expected: v.Term(),
+			Detail: "identity transform under a selector"})
+	}
+	want := v
+	matchedInts := 0
+	for _, vis := range U.Visits {
+		path := vis.Path
+		nv, ok := refUpdate(&want, path, func(prev *core.Val) *core.Val {
+			if prev != nil && prev.K == 'i' {
+				if i, ok := prev.Int64(); ok && i < 1<<40 && i > -(1<<40) {
+					matchedInts++
+					x := core.Int(i + 1)
+					return &x
+				}
+			}
+			return prev
+		}, false)
+		if ok && nv != nil {
+			want = *nv
+		}
+	}
+	res, err = func() (res datamodel.Node, err error) {
+		defer func() {
+			if x := recover(); x != nil {
+				err = fmt.Errorf("panic: %v", x)
+			}
+		}()
+		return traversal.WalkTransforming(n, s2, func(p traversal.Progress, m datamodel.Node) (datamodel.Node, error) {
+			if m.Kind() == datamodel.Kind_Int {
+				if i, err := m.AsInt(); err == nil && i < 1<<40 && i > -(1<<40) {
+					return basicnode.NewInt(i + 1), nil
+				}
+			}
+			return m, nil
+		})
+	}()
+	if err != nil || termOf(res) != want.Term() {
+		c.Fail("C16/walk-transform-differs", core.Replay{Kind: "oracle", Case: caseSel, Impl: termOfOrErr(res, err), Expected: want.Term(),
+			Detail: fmt.Sprintf("matched ints (per WalkMatching with the same selector): %d", matchedInts)})
+	}
+	c.Count(caseSel, matchedInts > 0)
+	c.Dist("walk-transform-selector")
 	return nil
 }
 
